@@ -106,6 +106,9 @@ func VerifBurns() {
 	}
 	for i, a := range people {
 		vrt.Assert("C11.only-a-valid-fct-burn-credits-pfct-and-exactly-the-burned-amount", uint64(vrtBalance(tx, a, fat2.PTickerFCT)) == exp[i])
+		// read as C04: an FCT burn is one of the enumerated supply events - pFCT supply grows by exactly
+		// the burned amount, on the burner's address, and by nothing else in the factoid block
+		vrt.Assert("C04.fct-burn-creates-exactly-the-burned-amount-for-the-burner", uint64(vrtBalance(tx, a, fat2.PTickerFCT)) == exp[i])
 		vrt.Assert("C11.fct-burn-touches-no-other-asset", vrtBalance(tx, a, fat2.PTickerPEG) == 0 && vrtBalance(tx, a, fat2.PTickerUSD) == 0)
 	}
 	var rows int
